@@ -508,6 +508,7 @@ fn run(case: &Case, out: &mut Out) {
     let tagf = || if regex_seen.get() { "regexhost" } else { "plain" };
     let mut router = Router::new();
     let mut trie: TrieNode<i64> = TrieNode::root();
+    let trie_regex = std::cell::Cell::new(false);
     let mut live: Vec<Front> = vec![];
     let mut dead = false;
     for op in &case.ops {
@@ -528,6 +529,11 @@ fn run(case: &Case, out: &mut Out) {
                             .cloned()
                             .or_else(|| e.downcast_ref::<&str>().map(|x| x.to_string()))
                             .unwrap_or_default();
+                        if cfg!(debug_assertions) {
+                            // checked profile: hand the debug assertion to `drive`, tagged like every other violation
+                            let t = if regex_seen.get() || (f.pos == 2 && f.host.contains(&b'/')) { "regexhost" } else { "plain" };
+                            panic!("tag={t} {} {}: {}", op.name, show_front(&f), msg.chars().take(200).collect::<String>());
+                        }
                         out.obs(&[ts("panic")]);
                         out.viol("panic-config", &format!("{} {} panicked: {}", op.name, show_front(&f), msg.chars().take(160).collect::<String>()));
                         dead = true;
@@ -574,12 +580,50 @@ fn run(case: &Case, out: &mut Out) {
                 }
             }
             // direct correspondence of the trie API
+            "trem" | "tget" | "tmut" if cfg!(debug_assertions) => {
+                // checked profile: same calls, debug assertions re-raised with the case tag
+                let key = a[0].b().to_vec();
+                let aw = a.get(1).map(|t| t.n() == 1).unwrap_or(false);
+                let name = op.name.clone();
+                let r = catch_unwind(AssertUnwindSafe(|| match name.as_str() {
+                    "trem" => match trie.domain_remove(&key) {
+                        RemoveResult::Ok => vec![ts("ok")],
+                        RemoveResult::NotFound => vec![ts("notfound")],
+                    },
+                    "tget" => match trie.domain_lookup(&key, aw) {
+                        Some((k, v)) => vec![ts("some"), tb(k), tn(*v)],
+                        None => vec![ts("none")],
+                    },
+                    _ => match trie.domain_lookup_mut(&key, aw) {
+                        Some((k, v)) => {
+                            let o = vec![ts("some"), tb(k), tn(*v)];
+                            *v += 1;
+                            o
+                        }
+                        None => vec![ts("none")],
+                    },
+                }));
+                match r {
+                    Ok(o) => out.obs(&o),
+                    Err(e) => {
+                        let msg = e.downcast_ref::<String>().cloned().or_else(|| e.downcast_ref::<&str>().map(|x| x.to_string())).unwrap_or_default();
+                        panic!("tag={} {} {}: {}", if trie_regex.get() { "regexhost" } else { "plain" }, op.name, show(&key), msg.chars().take(200).collect::<String>());
+                    }
+                }
+            }
             "tins" => {
                 let r = catch_unwind(AssertUnwindSafe(|| trie.domain_insert(a[0].b().to_vec(), a[1].n() as i64)));
+                if a[0].b().contains(&b'/') && !matches!(r, Ok(InsertResult::Failed)) {
+                    trie_regex.set(true);
+                }
                 match r {
                     Ok(InsertResult::Ok) => out.obs(&[ts("ok")]),
                     Ok(InsertResult::Existing) => out.obs(&[ts("existing")]),
                     Ok(InsertResult::Failed) => out.obs(&[ts("failed")]),
+                    Err(e) if cfg!(debug_assertions) => {
+                        let msg = e.downcast_ref::<String>().cloned().or_else(|| e.downcast_ref::<&str>().map(|x| x.to_string())).unwrap_or_default();
+                        panic!("tag={} tins {}: {}", if trie_regex.get() { "regexhost" } else { "plain" }, show(a[0].b()), msg.chars().take(200).collect::<String>());
+                    }
                     Err(_) => {
                         out.obs(&[ts("panic")]);
                         out.viol("panic-config", &format!("TrieNode::insert({}) panicked", show(a[0].b())));
